@@ -61,15 +61,17 @@ class Executor(Exec):
                 r = self.sum_over_range(node.args[0], st)
                 if r is not None:
                     return r
-            if f.id == "implies" and self.spec:
+            if f.id == "implies":
                 a = self.truth(st, self.eval(node.args[0], st))
                 if z3.is_false(z3.simplify(a)):
                     return VBool(True)
+                mark = len(st.pc)
                 st.pc.append(a)
-                try:
-                    b = self.truth(st, self.eval(node.args[1], st))
-                finally:
-                    st.pc.pop()
+                b = self.truth(st, self.eval(node.args[1], st))
+                learned = st.pc[mark + 1:]
+                del st.pc[mark:]
+                if not self.spec:
+                    st.pc += [z3.Implies(a, f_) for f_ in learned]
                 return VBool(z3.Implies(a, b))
             if f.id == "iff" and self.spec:
                 return VBool(self.truth(st, self.eval(node.args[0], st)) == self.truth(st, self.eval(node.args[1], st)))
